@@ -23,7 +23,7 @@ EXPECT = {
  'C16/1': (['C16'], ''), 'C16/2': (['C16'], 'symbolic candidate from the start; replay extended to the handedness of the frame'),
  'C17/1': (['C17'], 'missed at first: added the summation-of-the-tables job'), 'C17/2': (['C17'], ''),
  'C18/1': (['C18'], ''), 'C18/2': (['C18'], ''), 'C19/1': (['C19'], ''), 'C19/2': (['C19'], 'missed at first: added arbitrary positive weights'),
- 'C20/1': ([], 'NOT CAUGHT: Count_Lines / text import through libstdc++ iostreams is not encodable'), 'C20/2': (['C20'], ''),
+ 'C20/1': (['C20'], 'missed at first (text import was declared not encodable): added an environment model of std::ifstream on an abstract file (lines / numbers) and the import-logic jobs'), 'C20/2': (['C20'], ''),
 }
 for key, (checks, note) in sorted(EXPECT.items()):
     src = os.path.join(SRC, key); dst = os.path.join('/verif/seeded', key.replace('/', '-')); os.makedirs(dst, exist_ok=True)
